@@ -7,7 +7,7 @@ from pyvc.speclib import implies, ite, forall_range, select, seq_len, is_none, u
 
 BYTES = TSeq(TInt(0, 255), "bytes")
 MEM = TSeq(TInt(0, 255), "bytes")          # the chip's memory, indexed by address (length irrelevant)
-PARENT = TRec("OpaqueParent", _freed=TBool(), mem=MEM)
+PARENT = TRec("OpaqueParent", _freed=TBool(), mem=MEM, closed=TBool())     # (the root view has its own closed flag)
 VIEW = TRec("SlicedMemoryIO", closed=TBool(), _parent=PARENT, _start_address=TInt(), _end_address=TInt(), _offset=TInt())
 SLICE = TRec("slice", start=TOpt(TInt()), stop=TOpt(TInt()), step=TOpt(TInt()))
 
@@ -80,8 +80,9 @@ def frame_view(a, b):
 
 # ---- native harness: a real SlicedMemoryIO over a recording parent ---------------------------------
 class _Parent(object):
-    def __init__(self, freed, mem):
+    def __init__(self, freed, mem, closed=False):
         self._freed = freed
+        self.closed = closed
         self.mem = bytearray(mem) if mem is not None else bytearray(4096)
         self.trace = []
 
@@ -106,7 +107,7 @@ def _mk_view(self):
     from pyvc.replay import OutsideHarness
     if not (0 <= self._start_address <= self._end_address <= 4096):
         raise OutsideHarness()
-    par = _Parent(self._parent._freed, None)
+    par = _Parent(self._parent._freed, None, getattr(self._parent, 'closed', False))
     par.mem[:] = bytes((7 * i + 3) % 251 for i in range(4096))
     self._parent.mem = bytes(par.mem)          # the pre-state memory the contract text is evaluated on
     v = SlicedMemoryIO(par, self._start_address, self._end_address)
@@ -494,3 +495,64 @@ class Free:
     def ensures_frees_once_and_marks_freed(self, self_post, _trace):
         return (not self._freed and self_post._freed and len(_trace) == 1
                 and _trace[0] == ("mc.sdram_free", self._start_address, self._x, self._y))
+
+
+# ---- where views come from: the allocation call ---------------------------------------------------------
+def _sdram_alloc(E, obj, args, kwargs, st, node):
+    """assumed: returns the start address of a fresh block of `size` bytes (ghost input g_start)"""
+    s = st.copy()
+    s.trace = ListV(s.trace.items + (("sdram_alloc",) + tuple(args),))
+    return [(s, st.env["g_start"], None)]
+
+
+@contract("rig/machine_control/machine_controller.py::MemoryIO.__init__")
+class MemoryIOInit:
+    properties = ("C13",)
+    params = dict(self=TRec("MemoryIO"), machine_controller=MC, x=TInt(0, 255), y=TInt(0, 255),
+                  start_address=TInt(), end_address=TInt())
+
+    def native(machine_controller, x, y, start_address, end_address):
+        from rig.machine_control.machine_controller import MemoryIO
+        import types
+        m = MemoryIO(_MC(), x, y, start_address, end_address)
+        return {"__native__": True, "result": None, "self_post": types.SimpleNamespace(
+            closed=m.closed, _start_address=m._start_address, _end_address=m._end_address, _offset=m._offset,
+            _freed=m._freed, _x=m._x, _y=m._y)}
+
+    def ensures_view_of_exactly_the_given_range(self_post, x, y, start_address, end_address):
+        return (self_post._start_address == start_address and self_post._end_address == max(start_address, end_address)
+                and self_post._offset == 0 and not self_post.closed and not self_post._freed
+                and self_post._x == x and self_post._y == y)
+
+
+@contract("rig/machine_control/machine_controller.py::MachineController.sdram_alloc_as_filelike")
+class AllocAsFilelike:
+    """the view handed out for an allocation covers exactly the allocated block [start, start + size)"""
+    properties = ("C13",)
+    params = dict(self=TRec("MachineController"), size=TInt(0, None), tag=TInt(0, 255), x=TInt(0, 255), y=TInt(0, 255),
+                  app_id=TInt(0, 255), clear=TBool(), g_start=TInt(1, None))
+    externals = {"MachineController.sdram_alloc": _sdram_alloc}
+    options = {"decorators": {"use_contextual_arguments": "identity"}}
+    assumptions = ["sdram_alloc (SCP alloc command) is external: it returns the start of a block of the requested size"]
+
+    def native(size, tag, x, y, app_id, clear, g_start):
+        from rig.machine_control.machine_controller import MachineController
+        from rig.utils.contexts import Required
+        import types
+        from rig.utils.contexts import ContextMixin
+        mc = MachineController.__new__(MachineController)
+        ContextMixin.__init__(mc, {"app_id": 66, "x": Required, "y": Required, "p": Required})
+        calls = []
+        mc.sdram_alloc = lambda *a, **k: (calls.append(a), g_start)[1]
+        m = MachineController.sdram_alloc_as_filelike(mc, size, tag, x, y, app_id, clear)
+        return {"__native__": True, "result": types.SimpleNamespace(
+            closed=m.closed, _start_address=m._start_address, _end_address=m._end_address, _offset=m._offset,
+            _freed=m._freed, _x=m._x, _y=m._y), "_trace": [("sdram_alloc",) + tuple(a) for a in calls]}
+
+    def ensures_one_allocation_of_the_requested_size(size, tag, x, y, app_id, clear, _trace):
+        return len(_trace) == 1 and _trace[0] == ("sdram_alloc", size, tag, x, y, app_id, clear)
+
+    def ensures_view_is_exactly_the_allocated_block(size, x, y, g_start, result):
+        return (result._start_address == g_start and result._end_address == g_start + size
+                and result._offset == 0 and not result.closed and not result._freed
+                and result._x == x and result._y == y)
